@@ -97,18 +97,31 @@ def lang_of(line):
 
 def baseline_slots(texts):
     tr = {line_text({"form": "rule_line", "pat": p, "n": n, "w": ""}) for p in ("P4", "P5") for n in ([7, 1, 0], [5, 2, 0])}
-    cases = [{"id": "base", "cfg": CFG, "fresh": True, "steps": [{"op": "execute", "lang": "tr" if t in tr else "en", "text": t} for t in texts]}]
+    cases = [{"id": "base", "cfg": CFG, "fresh": True, "want": ["ui"], "steps": [{"op": "execute", "lang": "tr" if t in tr else "en", "text": t} for t in texts]}]
     o = run_harness_stable_day(cases, "c18.base", jobs=1)[0]
     out = {}
     for t, st in zip(texts, o["steps"]):
-        ss = proj.slots_of_step(st)
+        ss = slots_ui(st)
         out[t] = ss[1][0] if ss and ss[0] is True and len(ss[1]) == 1 else {"k": "broken"}
     return out
 
 
 def same_slot(a, b):
-    keys = ("k", "f", "cur", "u", "out", "msg")
+    """value, printed form and the highlight tokens: a rule that declines leaves the line - all the fields of its result - as if the
+    rule were absent"""
+    keys = ("k", "f", "cur", "u", "out", "msg", "ui")
     return a is not None and all(a.get(k) == b.get(k) for k in keys)
+
+
+def slots_ui(st):
+    """proj.slots_of_step with the highlight tokens of each line attached"""
+    ss = proj.slots_of_step(st)
+    if ss is not None:
+        raw = (st.get("res") or {}).get("lines") or []
+        for i, sl in enumerate(ss[1]):
+            if i < len(raw) and raw[i]:
+                sl["ui"] = raw[i].get("ui")
+    return ss
 
 
 def run(rep):
@@ -145,7 +158,7 @@ def run(rep):
         raise ToolError("vacuous generator: %s" % kinds)
     base = baseline_slots(sorted(texts | set(BUILTIN_LINES) | {line_text({"form": "rule_line", "pat": p, "n": n, "w": ""}) for p in ("P4", "P5", "P6") for n in ([7, 1, 0], [5, 2, 0])}
                                  | {"glorp 7 frob", "glorp 7 snarf"}))
-    cases = [{"id": "h%d" % i, "cfg": CFG, "fresh": True, "steps": [step_of(h) for h in c["hist"]]} for i, c in enumerate(hists)]
+    cases = [{"id": "h%d" % i, "cfg": CFG, "fresh": True, "want": ["ui"], "steps": [step_of(h) for h in c["hist"]]} for i, c in enumerate(hists)]
     obs = run_harness_stable_day(cases, "c18.gen", jobs=8)
     for c, case, o in zip(hists, cases, obs):
         steps = o.get("steps") or []
@@ -163,7 +176,7 @@ def run(rep):
         for k, h in enumerate(c["hist"]):
             st = steps[k] if k < len(steps) else o
             if h["call"] == "execute":
-                ss = proj.slots_of_step(st)
+                ss = slots_ui(st)
                 slot = ss[1][0] if ss and ss[0] is True and len(ss[1]) == 1 else None
                 if slot is not None:
                     slot["same_as_base"] = same_slot(slot, base[case["steps"][k]["text"]])
@@ -278,7 +291,7 @@ def random_trace(rep, base, nhist):
                 hs.append({"call": "add_type_item", "fam": rng.choice(["zorps", "zorps", "zorps", "blips"]), "item": rng.choice(items)})
             else:
                 hs.append({"call": "execute", "line": rng.choice(lines)})
-        cases.append({"id": "r%d" % hi, "cfg": CFG, "fresh": True, "steps": [step_of(h) for h in hs]})
+        cases.append({"id": "r%d" % hi, "cfg": CFG, "fresh": True, "want": ["ui"], "steps": [step_of(h) for h in hs]})
         metas.append(hs)
     obs = run_harness_stable_day(cases, "c18.rand", jobs=8)
     events, index = [], []
@@ -302,7 +315,7 @@ def random_trace(rep, base, nhist):
             elif h["call"] == "add_type_item":
                 e = {"ev": "add_type_item", "fam": h["fam"], "idx": h["item"]["idx"], "up": h["item"]["up"], "down": h["item"]["down"], "ret": ret}
             else:
-                ss = proj.slots_of_step(st)
+                ss = slots_ui(st)
                 if ss is None:
                     status, slots = True, [{"k": st.get("outcome", "panic")}]
                 else:
